@@ -11,6 +11,7 @@ Driver for C09. Requests:
       character `idx`; `spaces`/`carets` are what the real rendering printed under the line.
       → `ok <code points of the printed line> ; located=<0|1> old=<panic|same|diff>` or `panic`
 * `trace <off> | <code point>*` → `ok <line> <pos> <code points of the line>` or `panic`
+* `eoi | <code point>*` → the same for `trace_end_of_input`
 * `chr <i>` → `ok <c>` | `err <c>` | `panic`        (`charFromCode`)
 * `uint <N> <i>` → `ok <v>` | `err <v>`             (`uintBound`)
 * `ifcase <n> <k>` → `some <j>` | `none`            (`ifcaseSelect`)
@@ -76,6 +77,13 @@ def handle (line : String) : String :=
       | .ok ln pos c => s!"ok {ln} {pos} {showChars c}"
       | .panic => "panic"
     | _, _ => "bad-request"
+  | "eoi" :: "|" :: cs =>
+    match chars? cs with
+    | some l =>
+      match traceEoi l with
+      | .ok ln pos c => s!"ok {ln} {pos} {showChars c}"
+      | .panic => "panic"
+    | none => "bad-request"
   | ["chr", i] =>
     match i.toInt? with
     | some i => showR (charFromCode i)
